@@ -35,6 +35,11 @@ def calls(rng):
     pool.append(('xta-error', lambda j: j.model('xta', 'int i; clock x;\nprocess P() { state A; init A; trans A -> Z { guard j == 0; }; }\nsystem P;\n').dump('errors')))
     pool.append(('xta-old', lambda j: j.model('xta', 'int i; clock x;\nprocess P { state A, B; init A; trans A -> B { guard i == 0, x >= 1; assign i := 1; }; }\nsystem P;\n').dump('errors').dump('doc')))
     pool.append(('xta-array-abort', lambda j: j.model('xta', 'int a[2][int[0,1]][ ;\nprocess P() { state A; init A; }\nsystem P;\n').dump('errors')))
+    # literals outside the range of their type leave errno (ERANGE) behind in the C library: process-global state a later call must not read
+    xml('xml-huge-double', g='int i; clock x; double d = 1e999;')
+    xml('xml-huge-int', g='int i; clock x; int k = 99999999999999999999;')
+    for e in ('1e999 > 1.0', '99999999999999999999 + 1', '1e-999 < 1.0', '2147483648', '4294967296 * 2'):
+        pool.append(('expr:' + e, lambda j, e=e: j.expr(e)))
     for e in ('1 + 2 * 3', '(1 + ', 'zz + 1', '/* open', 'forall (i : int[0,3]) i > 0', '1 + /* c */ 2 // tail'):
         pool.append(('expr:' + e, lambda j, e=e: j.expr(e)))
     for q in ('A[] not deadlock', 'E<> 1 > ', 'Pr[<=10](<> true)', 'A[] forall (i : int[0,3]) i >= 0', 'E<> zz == 1'):
